@@ -375,7 +375,7 @@ theorem fileHeader_ok (buf : Bytes) (i : FileInfo) (hfh : fileHeader buf = .ok (
         split at hhr
         · rename_i hf
           split at hhr
-          · cases hhr
+          · split at hhr <;> cases hhr
           · rename_i h32
             split at hhr
             · cases hhr
